@@ -44,6 +44,7 @@ type Config struct {
 	AtomicsVisible bool
 	DeadlockOK     bool
 	SleepSets      bool
+	SleepBound     bool // a sibling may sleep only if its representative schedule stays within the pre-emption bound (sched.go)
 	LazyArrive     bool     // a thread that completed a visible operation does not run on to its next one by itself: "arriving" there is a schedulable step (exposes windows in which a thread is not yet waiting: non-blocking sends, TryLock)
 	NoSched        []string // package-level mutexes ("pkgpath.var") whose uncontended Lock/Unlock are not scheduling points
 	Silence        []string
@@ -153,6 +154,8 @@ func (c *Config) apply(opts []string) error {
 			c.LazyArrive = v == "1" || v == "true"
 		case "sleepsets":
 			c.SleepSets = v == "1" || v == "true"
+		case "sleepbound":
+			c.SleepBound = v == "1" || v == "true"
 		case "deadlockok":
 			c.DeadlockOK = v == "1" || v == "true"
 		case "silence":
